@@ -164,6 +164,20 @@ def programs(pt):
                       pt.Log(pt.Itob(pick(pt.Int(8)) + pick(pt.Int(3)))),
                       pt.Return(pt.And(pt.App.globalGet(pt.Bytes("n")) == pt.Int(1), pick(pt.Int(7)) == pt.Int(70))))
 
+    @prog("anytype-returning-subroutine")
+    def _():
+        # a routine declared TealType.anytype still returns a value: under frame pointers its proto must say so
+        @pt.Subroutine(pt.TealType.anytype)
+        def pick(k: pt.Expr) -> pt.Expr:
+            return pt.App.globalGet(k)
+        @pt.Subroutine(pt.TealType.anytype)
+        def pick2(a: pt.Expr, b: pt.Expr) -> pt.Expr:
+            t = pt.ScratchVar(pt.TealType.anytype)
+            return pt.Seq(t.store(pt.App.globalGet(b)), pt.If(a).Then(pt.Return(t.load())), pt.Return(pt.App.globalGet(pt.Bytes("u"))))
+        return pt.Seq(pt.App.globalPut(pt.Bytes("u"), pt.Int(41)), pt.App.globalPut(pt.Bytes("b"), pt.Bytes("xyz")),
+                      pt.Log(pt.Itob(pt.Int(1) + pick(pt.Bytes("u")))), pt.Log(pick2(pt.Int(1), pt.Bytes("b"))),
+                      pt.Return(pt.And(pt.Int(100) - pick(pt.Bytes("u")) == pt.Int(59), pt.Len(pick(pt.Bytes("b"))) == pt.Int(3), pick2(pt.Int(0), pt.Bytes("b")) == pt.Int(41))))
+
     @prog("none-sub-if-else-return")
     def _():
         c = pt.ScratchVar(pt.TealType.uint64, 30)
